@@ -3,6 +3,8 @@
 Monitor: graph model (oracles/flowgraph.py, own direction table) compared with every
 observed answer of Catchment.upstream / downstream / delineate_area /
 compute_flowpathlengths and grid.delineate_river."""
+import copy
+import warnings
 import itertools
 import math
 import time
@@ -41,7 +43,7 @@ OBLIGATIONS = {"exhaustive-grid": 500, "shape:1xk": 20, "shape:kx1": 20,
                "diagonal-step": 100, "inlet-on-chain": 20, "cycle-through-outlet": 20,
                "area>=2": 200, "river": 200, "flowpath": 100, "relation": 500,
                "sink": 50, "offgrid": 50, "invalid-code": 50, "tight-buffer": 5,
-               "flowpath:empty-area": 5}
+               "flowpath:empty-area": 5, "api-sequence": 10}
 CODES = [1, 2, 4, 8, 16, 32, 64, 128, 0, 3]
 
 
@@ -426,6 +428,12 @@ def run(ctx):
                 "seed": int(rng.integers(0, 2 ** 31))}
         run_grid(ctx, codes, case, rng=np.random.default_rng(case["seed"]),
                  max_outlets=6)
+        if it % 4 != 3 and min(nr, nc) >= 2:
+            c3 = {"kind": "apiseq", "codes": codes.tolist(),
+                  "seed": int(rng.integers(0, 2 ** 31))}
+            for rep_ in range(3):
+                run_api_sequence(ctx, codes, dict(c3, seed=c3["seed"] + rep_),
+                                 np.random.default_rng(c3["seed"] + rep_))
         # tight buffers: exact result or ValueError, never anything else
         model = FlowGraph(codes.tolist())
         if not model.has_cycle():
@@ -439,7 +447,94 @@ def run(ctx):
                            nval=max(1, int(nval)), cyc=False)
 
 
+def run_api_sequence(ctx, codes, case, rng):
+    """One catchment object driven through a random sequence of *different* public
+    calls; after every call everything observable must still describe the area that was
+    delineated last (lock-step with the graph model)."""
+    g = mods()
+    codes = np.asarray(codes, dtype=np.int64)
+    nr, nc = codes.shape
+    model = FlowGraph(codes.tolist())
+    if model.has_cycle():
+        return
+    cat, fd = make_catch(codes)
+    n = model.n
+    sizes = [len(model.area(o)) for o in range(n)]
+    big = [int(o) for o in np.argsort(sizes)[::-1][:6]]
+    state = {"ref": None, "outlet": None, "inlets": ()}
+    ctx.__dict__["_kept_areas"] = []
+    ops = []
+    ctx.evaluated()
+    ctx.tag("api-sequence")
+    for step in range(14):
+        op = ["delineate", "flowpaths", "boundary", "dict", "relations", "river",
+              "intersect", "delineate"][int(rng.integers(0, 8))]
+        if state["ref"] is None and op in ("flowpaths", "boundary", "intersect", "dict"):
+            op = "delineate"
+        ops.append(op)
+        c2 = dict(case, ops=list(ops))
+        try:
+            if op == "delineate":
+                o = big[int(rng.integers(0, len(big)))] if rng.random() < 0.7 \
+                    else int(rng.integers(0, n))
+                full = sorted(model.area(o) - {o})
+                inl = ()
+                if full and rng.random() < 0.4:
+                    inl = tuple(int(v) for v in rng.choice(
+                        full, size=min(len(full), int(rng.integers(1, 3))), replace=False))
+                ref = check_area(ctx, cat, model, o, list(inl),
+                                 dict(c2, outlet=o, inlets=list(inl)), cyc=False)
+                state.update(ref=ref, outlet=o, inlets=inl)
+            elif op == "flowpaths":
+                check_flowpaths(ctx, cat, model, state["outlet"], state["ref"], c2)
+            elif op == "boundary":
+                ctx.api("delineate_boundary")
+                try:
+                    cat.delineate_boundary()
+                except ValueError:
+                    pass
+            elif op == "dict":
+                # (the dictionary carries the geometry of the flow grid, not its cells:
+                # the rebuilt object is only compared, not used for further calls)
+                ctx.api("Catchment.to_dict/from_dict")
+                c_d = g.Catchment.from_dict(copy.deepcopy(cat.to_dict()))
+                ctx.check("seq.dict-area", set(int(v) for v in c_d.idxcells_area) ==
+                          state["ref"], "api-sequence|dict-area", c2, None)
+            elif op == "relations":
+                check_relations(ctx, cat, model, c2)
+            elif op == "river":
+                check_river(ctx, fd, model, int(rng.integers(0, n)), c2, False)
+            elif op == "intersect" and len(state["ref"] or ()) > 0:
+                ctx.api("intersect")
+                cg = g.Grid("cg", nc + 2, nr + 2, cellsize=1.0, xllcorner=-1.0,
+                            yllcorner=-1.0)
+                with warnings.catch_warnings():
+                    warnings.simplefilter("ignore")
+                    _, ic, w = cat.intersect(cg)
+                ctx.check("seq.intersect-area", abs(float(np.sum(w)) - len(state["ref"]))
+                          <= 1e-9, "api-sequence|intersect-area", c2,
+                          lambda: {"sum_weights": float(np.sum(w)),
+                                   "area_cells": len(state["ref"])})
+        except ValueError as e:
+            ctx.check("seq.no-error", False, f"api-sequence|{op}|raises", c2,
+                      {"exc": repr(e)})
+            return
+        if state["ref"] is not None:
+            area = set(int(v) for v in cat.idxcells_area)
+            okst = area == state["ref"] and (len(state["ref"]) == 0 or
+                                             int(cat.idxcell_outlet) == state["outlet"])
+            ctx.check("seq.state-describes-last-delineation", okst,
+                      f"api-sequence|state-after-{op}", c2,
+                      lambda: {"area_now": sorted(area), "expected": sorted(state["ref"]),
+                               "outlet_now": repr(cat.idxcell_outlet),
+                               "outlet": state["outlet"]})
+    ctx.nontrivial("seq", codes, tuple(ops))
+
+
 def replay(ctx, case):
+    if case.get("kind") == "apiseq":
+        return run_api_sequence(ctx, case["codes"], case,
+                                np.random.default_rng(int(case["seed"])))
     codes = np.asarray(case["codes"], dtype=np.int64)
     model = FlowGraph(codes.tolist())
     cat, fd = make_catch(codes)
